@@ -617,7 +617,7 @@ def judge_history(ctx, h, per_cs, coq):
                     fails.append(("C05.%s.joint_compute" % which, tmp[0][1]))
                 nval = sum(1 for v, f in zip(alone["values"], [truth.must_fill[t] for t in range(th * tw)]) if not f)
                 ctx.case(("hist", h["id"], cs, which, k), nontrivial=nval > 0 and (st["mask"] is not None or h["kind"] == "sources"),
-                         sample={"history/%s %s" % (h["kind"], which): "history %d" % h["id"], "kind": h["kind"], "resampler": which, "call": k + 1, "calls": len(h["steps"]),
+                         sample={"history": "history %d" % h["id"], "kind": h["kind"], "resampler": which, "call": k + 1, "calls": len(h["steps"]),
                                  "name": st["name"], "mask_mode": st["mode"], "masked": sum(st["mask"] or []), "targets_with_value": nval})
                 ctx.count("history_%s_%s" % (h["kind"], which))
                 if which == "legacy" and "oracle_q" in w:
@@ -835,7 +835,7 @@ def judge_case(ctx, case, meta, per_cs, coq):
                 has_val = any(i != -1 for i in ia)
                 got_value = got_value or has_val
                 ctx.case((cid, cs, which, repr(chunks)), nontrivial=has_val and (nblk > 1 or mask is not None or meta["layout"] != "geo" or n_valid < meta["S"]),
-                         sample={"%s %s cs=%d" % (meta["pair"], which, cs): "case %d" % cid, "pair": meta["pair"], "chunk_size": cs, "resampler": which, "index_chunks": chunks[:2],
+                         sample={meta["pair"].split("/")[0]: "case %d" % cid, "pair": meta["pair"], "chunk_size": cs, "resampler": which, "index_chunks": chunks[:2],
                                  "data_dims": d["dims"], "data_shape": d["shape"], "mask": meta["mask"], "valid_sources": n_valid,
                                  "targets_with_value": sum(1 for i in ia if i != -1), "targets": th * tw})
                 ctx.count("blocks=%s" % ("1" if nblk == 1 else "2-9" if nblk < 10 else "10+"))
